@@ -106,3 +106,69 @@ def run(ctx):
                        "the method writes the backing store of %s but neither updates nor invalidates `%s`: a later read is answered from the stale "
                        "cache entry (search distances and the k nearest are computed against a vector that is no longer stored)" % (aid.split("::")[-1], fname), b.file)
     ctx.floor("C31.3", "store-writing methods of cache owners", n3, 1)
+
+    # ---- clause 4: back-link lists are cut only when they exceed 2*m ------------------------------------------------
+    # The property promises exact k-nearest results while the index holds at most 2*m + 1 vectors: then no node can have more than 2*m
+    # neighbours and, as long as a list is truncated only when its length *exceeds* 2*m, nothing is ever cut, layer 0 stays a bidirectional
+    # connected graph and the search is exhaustive.  Truncating at `>= 2*m` (or at any smaller bound) drops links at exactly 2*m + 1 vectors.
+    from ..facts import op_local
+    from ..mirutil import switch_on
+    ctx.rule("C31.4", "in HnswIndex::insert a neighbour list is truncated only under `len > 2*m` (strict, bound derived from m * 2)")
+    hid = [i for i in F.bodies if i.startswith("nervusdb_storage::index::hnsw::logic::HnswIndex") and i.endswith("::insert")]
+    if not hid:
+        ctx.body("nervusdb_storage::index::hnsw::logic::HnswIndex::insert")
+    hb = ctx.body(hid[0])
+    truncs = [c for c in hb.calls() if c.name.endswith("::truncate")]
+    ctx.floor("C31.4", "truncate sites in HnswIndex::insert", len(truncs), 1)
+
+    def derives_from_m_times_2(l, depth=6):
+        """value is (m * 2) [+ 0]: a Mul by the constant 2 somewhere in its definition, no other arithmetic"""
+        for _ in range(depth):
+            if l is None:
+                return False
+            o = hb.origin(l)
+            if not o:
+                return False
+            if o[0] == "place":  # (_t.0) of a checked multiplication
+                sd = hb.single_def(o[1][0])
+                if sd and sd[2] == "assign" and sd[3][2][0] == "bin" and sd[3][2][1] in ("Mul", "MulWithOverflow"):
+                    ops = (sd[3][2][2], sd[3][2][3])
+                    return any(x[0] == "k" and x[1].get("v") == 2 for x in ops)
+                l = o[1][0]
+                continue
+            if o[0] == "rv" and o[1][0] == "bin" and o[1][1] in ("Mul", "MulWithOverflow"):
+                return any(x[0] == "k" and x[1].get("v") == 2 for x in (o[1][2], o[1][3]))
+            return False
+        return False
+
+    for k, tc in enumerate(truncs):
+        ok = False
+        why = "no dominating length comparison"
+        for sb in range(len(hb.blocks)):
+            sw = switch_on(hb, sb)
+            if not sw or not hb.dominates(sb, tc.bb):
+                continue
+            sd = hb.single_def(sw[0])
+            if not (sd and sd[2] == "assign" and sd[3][2][0] == "bin" and sd[3][2][1] in ("Gt", "Ge", "Lt", "Le")):
+                continue
+            op, a, b_ = sd[3][2][1], sd[3][2][2], sd[3][2][3]
+            la, lb = op_local(a), op_local(b_)
+            oa = hb.origin(la) if la is not None else None
+            ob = hb.origin(lb) if lb is not None else None
+            a_len = bool(oa and oa[0] == "call" and oa[1].name.endswith("::len"))
+            b_len = bool(ob and ob[0] == "call" and ob[1].name.endswith("::len"))
+            if a_len and derives_from_m_times_2(lb):
+                ok, why = (op == "Gt"), "len %s 2*m" % op
+            elif b_len and derives_from_m_times_2(la):
+                ok, why = (op == "Lt"), "2*m %s len" % op
+            else:
+                continue
+            # the truncation must sit on the true arm
+            t_false = [tb for v, tb in sw[2] if v == 0]
+            if ok and t_false and tc.bb in hb.reachable(t_false) and tc.bb not in hb.reachable([sw[3]]):
+                ok, why = False, "truncation on the false arm"
+            break
+        ctx.instance("C31.4", "HnswIndex::insert truncate #%d guarded by: %s" % (k, why))
+        ctx.oblige(ok, "C31.4", "HnswIndex::insert:truncate#%d-threshold" % k,
+                   "a neighbour list is truncated under `%s` instead of `len > 2*m`: with exactly 2*m + 1 vectors a hub loses links, some vector becomes "
+                   "unreachable and the small-index search is no longer exact" % why, tc.loc())
